@@ -3,7 +3,7 @@
     (same answer for the same operation; malformed envelopes refused, nothing executed).
     Executable only (extracted / vm_compute). *)
 From Coq Require Import List NArith ZArith Bool String.
-From ApiFu Require Import Base.Sexp Transport.EnvelopeModel Transport.JsonText Transport.EnvelopeSpec.
+From ApiFu Require Import Base.Sexp Transport.EnvelopeModel Transport.JsonText Transport.EnvelopeSpec Transport.WireModel.
 Import ListNotations.
 Open Scope string_scope.
 
@@ -142,11 +142,31 @@ Definition dec_dobs (s : sexp) : option dobs :=
   | _ => None
   end.
 
+Definition dec_wire (s : sexp) : option wobs :=
+  match untag s with
+  | Some (t, [ct; cl; b]) =>
+      if String.eqb t "wire-http" then
+        match as_bytes ct, as_Z cl, as_bytes b with
+        | Some ct', Some cl', Some b' => Some (WoHttp ct' cl' b')
+        | _, _, _ => None
+        end
+      else None
+  | Some (t, [SL fs; SL rs]) =>
+      if String.eqb t "wire-ws" then
+        match map_opt as_bytes fs, map_opt as_bytes rs with
+        | Some fs', Some rs' => Some (WoWs fs' rs')
+        | _, _ => None
+        end
+      else None
+  | Some (t, []) => if String.eqb t "wire-none" then Some WoNone else None
+  | _ => None
+  end.
+
 Definition dec_obs (s : sexp) : option obs :=
   match tagged "obs" s with
-  | Some [k; SL ps; c; r; h] =>
-      match untag k, map_opt as_bytes ps, as_bool c, as_bytes r, as_bytes h with
-      | Some (kt, [code]), Some ps', Some c', Some r', Some h' =>
+  | Some [k; SL ps; c; r; h; w] =>
+      match untag k, map_opt as_bytes ps, as_bool c, as_bytes r, as_bytes h, dec_wire w with
+      | Some (kt, [code]), Some ps', Some c', Some r', Some h', Some w' =>
           match as_Z code with
           | Some z =>
               let kind := if String.eqb kt "status" then KStatus z
@@ -154,10 +174,10 @@ Definition dec_obs (s : sexp) : option obs :=
                           else if String.eqb kt "ignored" then KIgnored
                           else if String.eqb kt "closed" then KClosed z
                           else KOther in
-              Some {| ob_kind := kind; ob_payloads := ps'; ob_completed := c'; ob_resolvers := r'; ob_hooks := h' |}
+              Some {| ob_kind := kind; ob_payloads := ps'; ob_completed := c'; ob_resolvers := r'; ob_hooks := h'; ob_wire := w' |}
           | None => None
           end
-      | _, _, _, _, _ => None
+      | _, _, _, _, _, _ => None
       end
   | _ => None
   end.
@@ -275,6 +295,28 @@ Definition api_agrees (m : mres) (o : obs) : bool :=
   | _, _ => false
   end.
 
+(** the answer on the wire against the model's framing (WireModel): an accepted HTTP envelope is
+    answered 200 with [http_frame (HttpOK body)] (Content-Type, Content-Length = the body's length);
+    a refused one with the Content-Type of [http_frame (HttpError c)]; on a socket the frames
+    received for the operation are exactly [ws_frame] of the data / next payloads followed by complete *)
+Definition proto_of_env (e : env) : proto := match e with EWs p _ _ => p | EHttp _ => GraphqlWS end.
+
+Definition wire_agrees (e : env) (m : mres) (o : obs) : bool :=
+  match m, ob_wire o with
+  | MAccept _ _, WoHttp ct cl body =>
+      let w := http_frame (HttpOK body) in
+      bytes_eqb ct (hw_ctype w) && Z.eqb cl (Z.of_nat (List.length body)) && negb (is_empty body)
+  | MReject c, WoHttp ct _ _ => bytes_eqb ct (hw_ctype (http_frame (HttpError c)))
+  | MStart id _, WoWs frames raws =>
+      list_eqb bytes_eqb frames
+        (map (ws_frame (proto_of_env e)) (List.app (map (WsData id) raws) (if ob_completed o then [WsComplete id] else [])))
+      && ob_completed o
+  | MIgnored, WoWs frames _ => match frames with [] => true | _ => false end
+  | MClosed _, WoWs frames _ => match frames with [] => true | _ => false end
+  | _, WoNone => true
+  | _, _ => false
+  end.
+
 Definition well_formed (T : ntable) (e : env) : bool :=
   match e with
   | EHttp h => http_well_formed (tbl_parse StdJson T) h
@@ -334,6 +376,8 @@ Definition check_sub (T : ntable) (o : op) (s : sub) : option sexp :=
     Some (v_mismatch ("decoder:" ++ name_of s) [])
   else if negb (forallb (api_agrees m) (s_obs s)) then
     Some (v_mismatch ("outcome:" ++ name_of s) [])
+  else if negb (forallb (wire_agrees (s_env s) m) (s_obs s)) then
+    Some (v_mismatch ("wire:" ++ name_of s) [])
   else if String.eqb (s_role s) "canonical" &&
           negb (match m with
                 | MAccept o' None => op_eqb o o'
